@@ -20,6 +20,6 @@ finally:
     ctx.close()
 PY
 # the other lake projects (each with its own prebuild script)
-for d in lean-l4 lean-parser lean-crystals lean-sched lean-cpp lean-c06 lean-c13; do
+for d in lean-l4 lean-parser lean-crystals lean-sched lean-cpp lean-c06 lean-c13 lean-loader; do
   if [ -x "$d/setup.sh" ]; then (cd "$d" && ./setup.sh) || echo "setup of $d failed"; fi
 done
